@@ -9,7 +9,9 @@ From Coq Require Import List NArith Bool.
 From SV Require Import lib.StampMap.
 From SV Require Import gen.GenFresh.
 From SV Require Import model.Fresh.
+From SV Require Import model.FreshSkip.
 From SV Require Import proofs.FreshProofs.
+From SV Require Import proofs.FreshSkipProofs.
 Import ListNotations.
 Open Scope N_scope.
 
@@ -244,6 +246,173 @@ Theorem C03_prefix_variant_refuted_by_producer_rerun :
 Proof. exact prefix_variant_refuted_by_producer_rerun. Qed.
 
 (* ---------------------------------------------------------------------------------------- *)
+(* The CHECKING path: a step that holds a stored hash (model/FreshSkip.v).                   *)
+(* A step hash is the pair of ingredient lists of its two digests (C13 licenses comparing the *)
+(* lists instead of the SHA-256 values); sh_env stands for label, shell flag, tracked         *)
+(* environment values and overrides.                                                          *)
+(* ---------------------------------------------------------------------------------------- *)
+
+(* The second way to become SUCCEEDED.  If a dispatch (x0) starts Executor.try_skip_job, any events
+   of other actors happen while the outputs are hashed (mid), and try_skip_job then skips, then c
+   held a stored hash sh and
+   - when the inputs were hashed, EVERY declared and EVERY recorded amended input of c was attached,
+     BUILT or CONFIRMED, on disk with exactly the hash recorded for it, and the input ingredients of
+     the stored hash are exactly these (file, hash on disk) pairs -- nothing more, nothing less --
+     with the same non-file ingredients;
+   - when the outputs were hashed, the output ingredients of the stored hash are exactly the
+     (output, hash on disk) pairs of c's outputs;
+   - c becomes SUCCEEDED keeping the same hash; no command ran and no start/stop stamp was written. *)
+Theorem C03_skip_succeeded_describes_files :
+  forall (x0 : xworld) (t : N) (x1 : xworld) (mid : list xev) (t' : N) (x3 : xworld),
+    do_xtry x0 t false = (x1, XRTry 2 false) -> is_checking x1 = true ->
+    forallb xenv_only mid = true ->
+    let x2 := xrun mid x1 in
+    do_xchk x2 t' false = (x3, XRChk true) ->
+    exists sh,
+      x_hash x0 = Some sh /\ sh_env sh = x_envc x0 /\
+      (forall f, In f (all_inputs (xb x0)) ->
+         f_detached (files (xb x0) f) = false /\
+         (f_state (files (xb x0) f) = FS_BUILT \/ f_state (files (xb x0) f) = FS_CONFIRMED) /\
+         disk (xb x0) f = f_hash (files (xb x0) f) /\
+         In (f, disk (xb x0) f) (sh_inp sh)) /\
+      (forall f h, In (f, h) (sh_inp sh) -> In f (all_inputs (xb x0)) /\ disk (xb x0) f = h) /\
+      (forall o, In o (x_outs x0) -> In (o, disk (xb x2) o) (sh_out sh)) /\
+      (forall o h, In (o, h) (sh_out sh) -> In o (x_outs x0) /\ disk (xb x2) o = h) /\
+      c_state (xb x3) = SS_SUCCEEDED /\ c_run (xb x3) = None /\ bk (xb x3) = bk (xb x2) /\
+      x_hash x3 = Some sh /\ x_chk x3 = None.
+Proof. exact skip_succeeded_describes_files. Qed.
+
+(* ... and every output is present, in every state reachable from a world without stored hash:
+   a stored hash never lists a missing output (invariant hash_ok, preserved by every event). *)
+Theorem C03_skip_outputs_present :
+  forall (cid : N) (init outs : list N) (capv : N) (kg : bool) (envc : N) (pre : list xev)
+         (t : N) (x1 : xworld) (mid : list xev) (t' : N) (x3 : xworld),
+    let x0 := xrun pre (xworld0 cid init outs capv kg envc) in
+    do_xtry x0 t false = (x1, XRTry 2 false) -> is_checking x1 = true ->
+    forallb xenv_only mid = true ->
+    do_xchk (xrun mid x1) t' false = (x3, XRChk true) ->
+    forall o, In o (x_outs x0) -> disk (xb (xrun mid x1)) o <> 0.
+Proof.
+  intros cid init outs capv kg envc pre t x1 mid t' x3 x0.
+  apply skip_outputs_present. apply hash_ok_reachable. apply hash_ok_xworld0.
+Qed.
+
+(* Every way the dispatch of a step with a stored hash can go when the hash computation is not
+   cancelled, for try_skip_job (k = 2) and validate_dynamic_job (k = 3): the command never starts and
+   the step is not SUCCEEDED afterwards; an input that differs from its record gives FAILED and
+   draining (hash deleted); an input digest that differs from the stored one gives PENDING, not
+   deferred, without hash and without amended inputs (so the next dispatch runs the command);
+   otherwise try_skip_job stays CHECKING to hash the outputs and validate_dynamic_job leaves the
+   whole state exactly as it was. *)
+Theorem C03_checking_outcomes :
+  forall (x : xworld) (t : N) (x' : xworld) (k : N) (s : bool) (sh : shash),
+    do_xtry x t false = (x', XRTry k s) -> (k = 2 \/ k = 3) -> x_hash x = Some sh ->
+    s = false /\ c_run (xb x') = None /\ c_state (xb x') <> SS_SUCCEEDED /\
+    (snap_changed (xb x) (snapshot (xb x)) = true ->
+       c_state (xb x') = SS_FAILED /\ draining (xb x') = true /\ x_hash x' = None /\ x_chk x' = None) /\
+    (snap_changed (xb x) (snapshot (xb x)) = false ->
+     inp_equal sh (x_envc x) (canon (snapshot (xb x))) = false ->
+       c_state (xb x') = SS_PENDING /\ c_deferred (xb x') = false /\ c_dyn (xb x') = [] /\
+       x_hash x' = None /\ x_chk x' = None) /\
+    (snap_changed (xb x) (snapshot (xb x)) = false ->
+     inp_equal sh (x_envc x) (canon (snapshot (xb x))) = true ->
+       x_hash x' = Some sh /\
+       (k = 2 -> c_state (xb x') = SS_CHECKING /\
+                 x_chk x' = Some (mkChk sh (x_envc x) (canon (snapshot (xb x))))) /\
+       (k = 3 -> x' = x)).
+Proof. exact checking_outcomes. Qed.
+
+(* try_skip_job after the output hashing: SUCCEEDED iff not cancelled and the stored output
+   ingredients are the outputs as they are on disk now; a difference gives PENDING without hash. *)
+Theorem C03_skip_outcomes :
+  forall (x : xworld) (t : N) (cancel : bool) (k : chk),
+    x_chk x = Some k ->
+    let x' := fst (do_xchk x t cancel) in
+    x_chk x' = None /\ c_run (xb x') = c_run (xb x) /\
+    (cancel = true ->
+       c_state (xb x') = SS_FAILED /\ x_hash x' = None /\ snd (do_xchk x t cancel) = XRChk false /\
+       (keep_going (xb x) = false -> draining (xb x') = true)) /\
+    (cancel = false -> pairs_eqb (sh_out (k_old k)) (out_ingredients x) = false ->
+       c_state (xb x') = SS_PENDING /\ c_deferred (xb x') = false /\ c_dyn (xb x') = [] /\ x_hash x' = None /\
+       snd (do_xchk x t cancel) = XRChk false) /\
+    (cancel = false -> pairs_eqb (sh_out (k_old k)) (out_ingredients x) = true ->
+       c_state (xb x') = SS_SUCCEEDED /\ snd (do_xchk x t cancel) = XRChk true /\
+       x_hash x' = Some (mkSH (k_env k) (k_inp k) (sh_out (k_old k))) /\ bk (xb x') = bk (xb x)) /\
+    (c_state (xb x') = SS_SUCCEEDED -> cancel = false /\ sh_out (k_old k) = out_ingredients x).
+Proof. exact skip_outcomes. Qed.
+
+(* validate_dynamic_job, cancelled or not, whatever it finds: the command does not start, the step
+   ends PENDING or FAILED (never SUCCEEDED), and if the stored hash survives then NOTHING changed. *)
+Theorem C03_validate_never_succeeds_never_runs :
+  forall (x : xworld) (t : N) (cancel : bool) (x' : xworld) (s : bool),
+    do_xtry x t cancel = (x', XRTry 3 s) ->
+    s = false /\ c_run (xb x') = None /\ x_chk x' = None /\
+    (c_state (xb x') = SS_PENDING \/ c_state (xb x') = SS_FAILED) /\
+    (has_hash x' = true -> x' = x).
+Proof. exact validate_never_succeeds_never_runs. Qed.
+
+(* HAZARD (not a C03 violation; reported, see design.d/C03.md and findings.d/C03-validate-loop.json):
+   the "digest unchanged" branch of validate_dynamic_job sets PENDING without `deferred`, so the
+   step is exactly as dispatchable as before: every further dispatch derives the same job with the
+   same result, for ever, unless another actor changes something. *)
+Theorem C03_validate_unchanged_redispatches :
+  forall (x : xworld) (t : N) (x' : xworld) (s : bool),
+    do_xtry x t false = (x', XRTry 3 s) -> has_hash x' = true ->
+    forall (n : nat) (t' : N),
+      xrun (repeat (XTry t' false) n) x = x /\ do_xtry x t' false = (x, XRTry 3 false).
+Proof. exact validate_unchanged_redispatches. Qed.
+
+(* Hash cancellation (Executor._run_work_thread returning None while the build shuts down), at each
+   of its three sites: in _new_run of any job, in the output hashing of try_skip_job (C03_skip_outcomes,
+   cancel = true), and in the post-run hashing of execute_job. *)
+Theorem C03_cancelled_dispatch_fails :
+  forall (x : xworld) (t : N) (x' : xworld) (k : N) (s : bool),
+    do_xtry x t true = (x', XRTry k s) -> k <> 0 ->
+    s = false /\ c_state (xb x') = SS_FAILED /\ x_hash x' = None /\ x_chk x' = None /\
+    c_run (xb x') = None /\ (keep_going (xb x) = false -> draining (xb x') = true).
+Proof. exact cancelled_dispatch_fails. Qed.
+
+Theorem C03_cancelled_post_run_hash_not_succeeded :
+  forall (x : xworld) (t : N) (ok : bool) (r : runst),
+    c_run (xb x) = Some r ->
+    let x' := fst (do_xend x t ok true) in
+    c_state (xb x') <> SS_SUCCEEDED /\ x_hash x' = None /\ c_run (xb x') = None.
+Proof. exact cancelled_post_run_hash_not_succeeded. Qed.
+
+(* The hash a command leaves behind: none unless the step became SUCCEEDED; then its input
+   ingredients are exactly the inputs that count at the end with the hash they have on disk and in
+   the database, its output ingredients the outputs as they are on disk, all present. *)
+Theorem C03_run_succeeded_hash_describes_files :
+  forall (x : xworld) (t : N) (ok : bool) (r : runst),
+    c_run (xb x) = Some r ->
+    let x' := fst (do_xend x t ok false) in
+    (c_state (xb x') <> SS_SUCCEEDED -> x_hash x' = None) /\
+    (c_state (xb x') = SS_SUCCEEDED ->
+       exists sh, x_hash x' = Some sh /\ sh_env sh = x_envc x /\ ok = true /\
+         (forall f, In f (considered (xb x)) -> In (f, disk (xb x) f) (sh_inp sh)) /\
+         (forall f h, In (f, h) (sh_inp sh) ->
+            In f (considered (xb x)) /\ disk (xb x) f = h /\ f_hash (files (xb x) f) = h) /\
+         (forall o, In o (x_outs x) -> In (o, disk (xb x) o) (sh_out sh)) /\
+         (forall o h, In (o, h) (sh_out sh) -> In o (x_outs x) /\ disk (xb x) o = h /\ h <> 0)).
+Proof. exact run_succeeded_hash_describes_files. Qed.
+
+(* A command of c starts only through a non-cancelled dispatch of a step WITHOUT stored hash whose
+   pre-run check passed (then C03_not_started_before_inputs_available applies to do_try); neither a
+   CHECKING job nor an event of another actor starts it. *)
+Theorem C03_command_starts_only_without_hash :
+  forall (x : xworld) (e : xev),
+    c_run (xb x) = None -> c_run (xb (fst (xstep x e))) <> None ->
+    exists t, e = XTry t false /\ x_hash x = None /\ snd (do_try (xb x) t) = RTry true.
+Proof. exact command_starts_only_without_hash. Qed.
+
+(* What the generated decisions are (these break when the source changes them). *)
+Theorem C03_job_kind :
+  forall d h : bool,
+    derive_job_kind_gen d h = (if h then (if d then JK_try_skip else JK_validate) else JK_execute) /\
+    get_next_step_state_gen h = (if h then SS_CHECKING else SS_RUNNING).
+Proof. intros d h. split; [apply derive_job_kind_spec|apply get_next_step_state_spec]. Qed.
+
+(* ---------------------------------------------------------------------------------------- *)
 (* Non-vacuity.                                                                              *)
 (* ---------------------------------------------------------------------------------------- *)
 
@@ -282,3 +451,59 @@ Example C03_example_fresh_succeeds :
   c_state (run [ETry 2; EAmend [2]; EEnd 9 true] w) = SS_SUCCEEDED /\
   c_state (run [ETry 2; EAmend [2]; EWrite 1 7; EEnd 9 true] w) = SS_FAILED.
 Proof. vm_compute. repeat split; reflexivity. Qed.
+
+(* The CHECKING path.  Consumer 5, declared input 1 (CONFIRMED, hash 3), static file 2 (CONFIRMED,
+   hash 4), output 9 (hash 7 on disk), non-file ingredients 1. *)
+Definition sx0 : xworld :=
+  let x := xworld0 5 [1] [9] 2 false 1 in
+  let w := xb x in
+  let w := set_files w (upd (upd (files w) 1 (mkF true FS_CONFIRMED 3 false true None false))
+                            2 (mkF true FS_CONFIRMED 4 false true None false)) in
+  set_xb x (set_disk w (upd (upd (upd (disk w) 1 3) 2 4) 9 7)).
+Definition repend : xev := XE (ECRow SS_PENDING false 0).
+
+(* The command runs once and stores the hash ([(1,3)], [(9,7)]); made PENDING again, c is dispatched
+   to try_skip_job and skipped (SUCCEEDED without a command); if the output is rewritten while it is
+   being checked, or an input digest differs, c goes back to PENDING without hash; if the input file
+   itself differs from its record, c FAILS and the scheduler drains. *)
+Example C03_example_skip :
+  let x := xrun [XTry 1 false; XEnd 2 true false; repend] sx0 in
+  x_hash x = Some (mkSH 1 [(1, 3)] [(9, 7)]) /\
+  snd (xstep x (XTry 3 false)) = XRTry 2 false /\
+  (let y := xrun [XTry 3 false] x in
+     snd (xstep y (XChk 4 false)) = XRChk true /\ c_state (xb (fst (xstep y (XChk 4 false)))) = SS_SUCCEEDED /\
+     c_run (xb (fst (xstep y (XChk 4 false)))) = None) /\
+  (let y := xrun [XTry 3 false; XE (EWrite 9 8)] x in
+     snd (xstep y (XChk 4 false)) = XRChk false /\ c_state (xb (fst (xstep y (XChk 4 false)))) = SS_PENDING /\
+     x_hash (fst (xstep y (XChk 4 false))) = None) /\
+  (let y := xrun [XEnvC 2; XTry 3 false] x in c_state (xb y) = SS_PENDING /\ x_hash y = None) /\
+  (let y := xrun [XE (EWrite 1 6); XTry 3 false] x in c_state (xb y) = SS_FAILED /\ draining (xb y) = true) /\
+  (let y := xrun [XTry 3 true] x in c_state (xb y) = SS_FAILED /\ x_hash y = None) /\
+  (let y := xrun [XTry 3 false; XChk 4 true] x in c_state (xb y) = SS_FAILED /\ x_hash y = None).
+Proof. vm_compute. repeat split; reflexivity. Qed.
+
+(* validate_dynamic_job: c amends the static file 2, which is recorded MISSING by another actor while
+   the command runs; c SUCCEEDS with a hash that does not list 2 but keeps the edge.  Made PENDING
+   again with nothing else changed, c gets a VALIDATE_DYNAMIC job that leaves everything as it was,
+   so the same job is derived again and again (C03_validate_unchanged_redispatches). *)
+Example C03_example_validate_loop :
+  let x := xrun [XTry 1 false; XE (EAmend [2]); XE (ERow 2 (mkF true FS_MISSING 0 false true None false));
+                 XEnd 2 true false; repend] sx0 in
+  x_hash x = Some (mkSH 1 [(1, 3)] [(9, 7)]) /\ c_dyn (xb x) = [2] /\
+  xstep x (XTry 3 false) = (x, XRTry 3 false) /\
+  xrun (repeat (XTry 3 false) 50) x = x.
+Proof.
+  cbv zeta. split; [vm_compute; reflexivity|]. split; [vm_compute; reflexivity|].
+  assert (H : do_xtry (xrun [XTry 1 false; XE (EAmend [2]); XE (ERow 2 (mkF true FS_MISSING 0 false true None false));
+                             XEnd 2 true false; repend] sx0) 3 false
+              = (xrun [XTry 1 false; XE (EAmend [2]); XE (ERow 2 (mkF true FS_MISSING 0 false true None false));
+                       XEnd 2 true false; repend] sx0, XRTry 3 false)).
+  { match goal with |- do_xtry ?x 3 false = _ =>
+      destruct (validate_never_succeeds_never_runs x 3 false (fst (do_xtry x 3 false)) (match snd (do_xtry x 3 false) with XRTry _ s => s | _ => false end)) as [_ [_ [_ [_ Hx]]]]
+    end.
+    - vm_compute. reflexivity.
+    - rewrite <- Hx at 2; [|vm_compute; reflexivity].
+      vm_compute. reflexivity. }
+  split; [exact H|].
+  exact (proj1 (validate_unchanged_redispatches _ 3 _ false H eq_refl 50%nat 3)).
+Qed.
